@@ -1,6 +1,7 @@
 package stubx16
 
 import (
+	"math"
 	"testing"
 
 	"nriverif/ev"
@@ -60,6 +61,11 @@ func TestExh_C16(t *testing.T) {
 		[]Action{{Op: "start", Script: sc("healthy")}, {Op: "wait"}, {Op: "drop"}, {Op: "wait"}},
 		[]Action{{Op: "start", Script: sc("unreachable")}, {Op: "wait"}, {Op: "stop"}},
 	)
+	// what a failing dialer returns beside its error must not matter: the next Start dials
+	for _, ec := range []string{"typed-nil-tolerant", "dead", "typed-nil"} {
+		directed = append(directed, []Action{{Op: "start", Script: &Script{Kind: "unreachable", How: "custom-refused", ErrConn: ec}}, {Op: "wait"},
+			{Op: "start", Script: sc("healthy")}, {Op: "probe"}})
+	}
 	// every way of being unreachable, with context.Background() and with a deadline
 	for _, how := range unreachableWays {
 		for _, ctxMs := range []int{0, 200} {
@@ -184,6 +190,10 @@ func TestExh_C16(t *testing.T) {
 		// a runtime that sends no timeouts (0) or negative ones leaves the stub's own in place
 		// (D22): a healthy restart works like after any other session, and with a short timeout
 		// stored before, silent runtime ends are still given up on after that short time
+		// ... and so does one that announces a timeout too large for a Duration (D27)
+		for _, reg := range []int64{math.MaxInt64, math.MaxInt64/1000000 + 1, 1 << 62} {
+			run(C16Case{Actions: []Action{{Op: "start", Script: raw(reg, reg, false)}, {Op: "probe"}, {Op: "stop"}, {Op: "start", Script: sc("healthy")}, {Op: "probe"}, {Op: "drop"}}})
+		}
 		for _, reg := range []int64{0, -5} {
 			for _, sync := range []bool{false, true} {
 				run(C16Case{Actions: []Action{{Op: "start", Script: raw(reg, reg, sync)}, {Op: "probe"}, {Op: "stop"}, {Op: "start", Script: sc("healthy")}, {Op: "probe"}, {Op: "drop"}}})
